@@ -35,6 +35,7 @@ import (
 	"net/url"
 	"regexp"
 	"strings"
+	"sync"
 
 	"github.com/microcosm-cc/bluemonday/css"
 )
@@ -50,6 +51,11 @@ type Policy struct {
 	// ensure that those using Policy{} directly won't cause nil pointer
 	// exceptions
 	initialized bool
+
+	// Guards the initialisation: a zero-value Policy that no builder has
+	// initialised is initialised by the first call that sanitises with it,
+	// and several goroutines may make that call at once
+	initOnce sync.Once
 
 	// If true then we add spaces when stripping tags, specifically the closing
 	// tag is replaced by a space character.
@@ -228,6 +234,10 @@ const (
 
 // init initializes the maps if this has not been done already
 func (p *Policy) init() {
+	p.initOnce.Do(p.initialize)
+}
+
+func (p *Policy) initialize() {
 	if !p.initialized {
 		p.elsAndAttrs = make(map[string]map[string][]attrPolicy)
 		p.elsMatchingAndAttrs = make(map[*regexp.Regexp]map[string][]attrPolicy)
